@@ -190,6 +190,19 @@ CLAIMED = {
         "Proof is the right level because the domain is finite and the kernel enumerates it completely; the generic theorems say what the table facts imply for any registry."),
   technique="Lean 4: decide +kernel over regenerated whole tables + generic lemmas; exhaustive correspondence on the finite registry",
   design="DESIGN.md section 7 C18"),
+ "C10": dict(
+  text=("Lean theorems (lean/Props/C10.lean) over the model of linerange / the tester's location defaults / the location selectors every check uses (context default, the node's own line, "
+        "the line of a keyword's value) and Issue.get_code: line_in_range — for EVERY check that locates by selector, every positioned node with a well-formed span (CPython fact "
+        "Node.spanOK, asserted on every serialised tree), every nosec map: a reported or withheld finding's line is a line of its range and the range is exactly the node's span "
+        "(proved through kwLine_desc / resolved_line_source: a keyword line is the first line of a node below the call); range_contiguous_ascending, range_is_construct_span, "
+        "str_line_in_parent_range (string findings carry their parent's range), excerpt_contains_line (lmin <= line < lmax for every -n incl. 0 and negatives), excerpt_bound "
+        "(at most len(range)+max(n,1)-1 lines, by induction over the read loop); the verbatim/numbered clause is Props.C09.get_code_is_numbered_window. Checks decide on the position-ERASED "
+        "visit (Env.forCheck), so decisions cannot depend on line numbers in the model; the full equivariance theorem under monotone renumbering is work in progress and the shift clause is "
+        "currently decided by correspondence: every safe insertion point (between statements and inside bracketed expressions) x blank/whitespace/comment text x k in {1,3} on programs "
+        "with multi-line constructs — real bandit vs the expected interval-shift image and vs the compiled Lean model; plus per-finding invariants and excerpts for -n in {0,1,2,3,5,10} "
+        "against an independent reading of the file."),
+  technique="Lean 4 proof (location selectors + span well-formedness, excerpt arithmetic) + insertion-shift correspondence",
+  design="DESIGN.md section 7 C10"),
 }
 
 REASON_PENDING = "check not built yet (work in progress; DESIGN.md section 11 gives the build order)"
